@@ -1398,6 +1398,11 @@ def _np_diff(ex, args, kwargs, node):
     for z in (pre, apd):
         if z is not None:
             extra += 1
+    # the difference of a two-column stack along the column axis is the second column minus the first
+    va = single_atom(v.nf) if v.nf is not None and v.cond is None else None
+    if va is not None and va.kind == "app" and va.args[0] == "colstack" and isinstance(va.args[1], tuple) and len(va.args[1]) == 2 and extra == 0 and v.shape is not None and len(v.shape) == 2 and axc in (1, -1):
+        c0, c1 = va.args[1]
+        return Num(lift(c1) - lift(c0), (v.shape[0], NF.const(1)), v.dtype, meta={"diff_of": v})
     shape = None
     if v.shape is not None and len(v.shape) >= 1:
         a = axc if axc >= 0 else len(v.shape) + axc
@@ -1866,6 +1871,26 @@ def obj_method(ex, obj: ObjV, name, args, kwargs, node):
             obj.fields[k] = v
         return obj
     if name in ("get_class_tag", "get_tag"):
+        # sktime: tags are collected from the `_tags` class dictionaries along the MRO (nearest class wins); dynamic
+        # set_tags overrides are not modelled (reported as opaque when no static value is found)
+        tag = args[0].s if args and isinstance(args[0], StrV) else None
+        if tag is not None and obj.cls is not None and not obj.abstract:
+            for k in ex.P.mro(obj.cls):
+                if hasattr(k, "attrs") and "_tags" in k.attrs and isinstance(k.attrs["_tags"], ast.Dict):
+                    d = k.attrs["_tags"]
+                    for kk, vv in zip(d.keys, d.values):
+                        if isinstance(kk, ast.Constant) and kk.value == tag:
+                            if isinstance(vv, ast.Constant):
+                                c = vv.value
+                                if isinstance(c, bool):
+                                    return Num(None, (), "bool", cond=Cond.const(c))
+                                if isinstance(c, (int, float)):
+                                    return Num(NF.const(c), (), "int" if isinstance(c, int) else "float")
+                                if isinstance(c, str):
+                                    return StrV(c)
+                                if c is None:
+                                    return NONE
+                            return OpaqueV(f"tag({obj.key},{tag})")
         return OpaqueV(f"tag({obj.key},{valkey(args[0]) if args else ''})")
     if obj.abstract or obj.cls is None:
         ex.emit("abstract_call", node, obj=obj, method=name, args=args, kwargs=kwargs)
@@ -1942,6 +1967,9 @@ def num_method(ex, v: Num, name, args, kwargs, node):
             for d, c in zip(dims, cd):
                 out.append(total / known if c == -1 else d.nf)
             shape = tuple(out)
+        elif all(isinstance(d, Num) for d in dims) and sum(1 for c in cd if c == -1) <= 1:
+            # operand of unknown shape: the requested dimensions are known all the same (the free one is whatever fits)
+            shape = tuple(app("freedim", valkey(v)) if c == -1 else d.nf for d, c in zip(dims, cd))
         r = Num(v.nf, shape, v.dtype, v.pytype, arr=v.arr, cond=v.cond, meta=dict(v.meta, reshaped_from=v))
         if v.arr is not None and getattr(v.arr, "squeezed", False):
             tgt = shape if shape is not None else (tuple(d.nf for d in dims) if all(isinstance(d, Num) for d in dims) else None)
